@@ -111,6 +111,53 @@ fn sel_oracle_with(list: &[(&'static str, Metadata)], c: &SelCase, cx: &mut Case
     Ok(())
 }
 
+#[derive(Serialize, Deserialize, Debug, Clone)]
+pub struct CdCase {
+    /// 0 inline, 1 attachment, 2 a custom token, 3 attachment
+    pub ty: u8,
+    pub filename: Option<String>,
+    /// also send it as the header field of a real media response
+    pub via_response: bool,
+}
+
+fn cd_oracle(c: &CdCase, cx: &mut CaseCtx) -> Result<(), String> {
+    use ruma_common::http_headers::{ContentDisposition, ContentDispositionType};
+    let ty = match c.ty % 4 {
+        0 => ContentDispositionType::Inline,
+        2 => ContentDispositionType::parse("form-data").map_err(|e| e.to_string())?,
+        _ => ContentDispositionType::Attachment,
+    };
+    let cd = ContentDisposition::new(ty).with_filename(c.filename.clone());
+    let text = cd.to_string();
+    let f = c.filename.as_deref().unwrap_or("");
+    cx.class_if(f.contains('\\') || f.contains('"'), "filename_with_backslash_or_quote");
+    cx.class_if(f.ends_with('\\'), "filename_ends_with_backslash");
+    cx.class_if(!f.is_ascii(), "filename_non_ascii");
+    cx.nontrivial_if(f.contains('\\') || f.contains('"') || !f.is_ascii() || f.contains(';') || f.is_empty());
+    // what the encoder produces must be a legal header value, else the value is "not accepted"
+    if http::HeaderValue::from_str(&text).is_err() {
+        cx.class("not_accepted_by_encoder");
+        return Ok(());
+    }
+    let back = ContentDisposition::try_from(text.as_bytes()).map_err(|e| format!("Content-Disposition {cd:?} is written as {text:?} which does not parse back: {e}"))?;
+    if back != cd {
+        return Err(format!("Content-Disposition {cd:?} is written as {text:?} and read back as {back:?}"));
+    }
+    if back.to_string() != text {
+        return Err(format!("re-encoding the received Content-Disposition gives {:?} instead of {text:?}", back.to_string()));
+    }
+    if c.via_response {
+        use ruma_client_api::authenticated_media::get_content::v1::Response;
+        let resp = Response::new(b"file".to_vec(), "text/plain".to_owned(), cd.clone());
+        if let Some(r2) = response_roundtrip(resp, cx)? {
+            if r2.content_disposition.as_ref() != Some(&cd) {
+                return Err(format!("media response: Content-Disposition {cd:?} arrives as {:?}", r2.content_disposition));
+            }
+        }
+    }
+    Ok(())
+}
+
 /// Authentication header per scheme x token kind.
 fn auth_oracle(list: &[(&'static str, Metadata)], cx: &mut CaseCtx) -> Result<(), String> {
     for (name, m) in list {
@@ -1134,5 +1181,25 @@ pub fn run(ck: &mut Check) {
     let n = ck.n(150_000, 2_000_000);
     ck.prop("x_matrix", n, xm_case, xm_oracle);
     ck.floor("x_matrix", "xmatrix_value", 5000);
+    // (e) the Content-Disposition header field of the media endpoints
+    let n = ck.n(100_000, 2_000_000);
+    ck.prop(
+        "content_disposition_header",
+        n,
+        || {
+            let filename = prop_oneof![
+                3 => "[a-zA-Z0-9._-]{0,12}",
+                3 => "[a-zA-Z0-9 ._\\\\\"';=,()/-]{0,12}",
+                2 => "[a-z]{0,4}(\\\\|\"|\\\\\\\\|\\\\\"){1,3}",
+                2 => "[a-z \u{e9}\u{20ac}\u{1F600}%'*]{1,10}",
+                1 => "\\PC{0,8}",
+            ];
+            (0u8..4, prop::option::weighted(0.85, filename), any::<bool>()).prop_map(|(ty, filename, via_response)| CdCase { ty, filename, via_response })
+        },
+        cd_oracle,
+    );
+    ck.floor("content_disposition_header", "filename_with_backslash_or_quote", 5000);
+    ck.floor("content_disposition_header", "filename_ends_with_backslash", 1000);
+    ck.floor("content_disposition_header", "filename_non_ascii", 5000);
     ck.floor("x_matrix", "xmatrix_text_parsed", 200);
 }
